@@ -11,6 +11,105 @@ import KotoVerif.Lemmas.C01Eval
 namespace KotoVerif.C01
 open KotoVerif KotoVerif.Core KotoVerif.Prec KotoVerif.Gen
 
+/-! ## precedence (layer 1) -/
+
+/-- Rendering an operator tree with the fewest parentheses the generated table allows and parsing
+the tokens with the model of `parse_expression_start/continued` gives the tree back — for every
+tree (any operators of the table, unary minus, `not`, assignment, any nesting). -/
+theorem prec_roundtrip (e : OpTree) : parse (tokens e) = some e := by
+  unfold parse tokens
+  have h := roundtrip_gen e 0 0 [] 1 (e, []) (parseFuel (render 0 0 e)) (by simp [Follow])
+    (parseCont_stop0 (by simp [Follow]) 0 0 e)
+    (by have := cost_le e 0 0; unfold parseFuel; omega)
+  simp only [List.append_nil] at h
+  rw [h]
+
+/-- more fuel never changes a parse -/
+theorem parse_fuel_monotone {n N m : Nat} {ts : List Tok} {r : OpTree × List Tok} (h : n ≤ N)
+    (hp : parseStart n m ts = some r) : parseStart N m ts = some r :=
+  parseStart_mono h hp
+
+private abbrev v (x : Nat) : OpTree := .atom (.id x)
+
+/-- `x + y * z` is `x + (y * z)` — read off the *generated* table through `prec_roundtrip` -/
+theorem mul_over_add (x y z : Nat) :
+    parse [.id x, .op .Add, .id y, .op .Multiply, .id z]
+      = some (.bin .Add (v x) (.bin .Multiply (v y) (v z))) := by
+  simpa [tokens, render, lp, rp, OpTok.prec] using
+    prec_roundtrip (.bin .Add (v x) (.bin .Multiply (v y) (v z)))
+
+/-- `x + y < z` is `(x + y) < z` -/
+theorem add_over_cmp (x y z : Nat) :
+    parse [.id x, .op .Add, .id y, .op .Less, .id z]
+      = some (.bin .Less (.bin .Add (v x) (v y)) (v z)) := by
+  simpa [tokens, render, lp, rp, OpTok.prec] using
+    prec_roundtrip (.bin .Less (.bin .Add (v x) (v y)) (v z))
+
+/-- `x < y and z` is `(x < y) and z` -/
+theorem cmp_over_and (x y z : Nat) :
+    parse [.id x, .op .Less, .id y, .op .And, .id z]
+      = some (.bin .And (.bin .Less (v x) (v y)) (v z)) := by
+  simpa [tokens, render, lp, rp, OpTok.prec] using
+    prec_roundtrip (.bin .And (.bin .Less (v x) (v y)) (v z))
+
+/-- `x or y and z` is `x or (y and z)` -/
+theorem and_over_or (x y z : Nat) :
+    parse [.id x, .op .Or, .id y, .op .And, .id z]
+      = some (.bin .Or (v x) (.bin .And (v y) (v z))) := by
+  simpa [tokens, render, lp, rp, OpTok.prec] using
+    prec_roundtrip (.bin .Or (v x) (.bin .And (v y) (v z)))
+
+/-- `x - y - z` is `(x - y) - z`, `x / y / z` is `(x / y) / z`, and (the code's decision, the guide
+is silent) `x ^ y ^ z` is `(x ^ y) ^ z` -/
+theorem arith_left_assoc (x y z : Nat) :
+    parse [.id x, .op .Subtract, .id y, .op .Subtract, .id z]
+      = some (.bin .Subtract (.bin .Subtract (v x) (v y)) (v z))
+    ∧ parse [.id x, .op .Divide, .id y, .op .Divide, .id z]
+      = some (.bin .Divide (.bin .Divide (v x) (v y)) (v z))
+    ∧ parse [.id x, .op .Power, .id y, .op .Power, .id z]
+      = some (.bin .Power (.bin .Power (v x) (v y)) (v z)) := by
+  refine ⟨?_, ?_, ?_⟩
+  · simpa [tokens, render, lp, rp, OpTok.prec] using
+      prec_roundtrip (.bin .Subtract (.bin .Subtract (v x) (v y)) (v z))
+  · simpa [tokens, render, lp, rp, OpTok.prec] using
+      prec_roundtrip (.bin .Divide (.bin .Divide (v x) (v y)) (v z))
+  · simpa [tokens, render, lp, rp, OpTok.prec] using
+      prec_roundtrip (.bin .Power (.bin .Power (v x) (v y)) (v z))
+
+/-- comparisons nest to the right (`x < y < z` is `x < (y < z)` in the AST — the shape the compiler
+turns into a chain), equality operators bind looser than ordering operators -/
+theorem cmp_right_nested (x y z : Nat) :
+    parse [.id x, .op .Less, .id y, .op .Less, .id z]
+      = some (.bin .Less (v x) (.bin .Less (v y) (v z)))
+    ∧ parse [.id x, .op .Equal, .id y, .op .Less, .id z]
+      = some (.bin .Equal (v x) (.bin .Less (v y) (v z)))
+    ∧ parse [.id x, .op .Less, .id y, .op .Equal, .id z]
+      = some (.bin .Equal (.bin .Less (v x) (v y)) (v z)) := by
+  refine ⟨?_, ?_, ?_⟩
+  · simpa [tokens, render, lp, rp, OpTok.prec] using
+      prec_roundtrip (.bin .Less (v x) (.bin .Less (v y) (v z)))
+  · simpa [tokens, render, lp, rp, OpTok.prec] using
+      prec_roundtrip (.bin .Equal (v x) (.bin .Less (v y) (v z)))
+  · simpa [tokens, render, lp, rp, OpTok.prec] using
+      prec_roundtrip (.bin .Equal (.bin .Less (v x) (v y)) (v z))
+
+/-- unary forms: `not x and y` is `not (x and y)`; `-x ^ y` is `(-x) ^ y`; `-2 ^ y` has a negative
+literal as base -/
+theorem unary_binding (x y k : Nat) :
+    parse [.not, .id x, .op .And, .id y] = some (.not (.bin .And (v x) (v y)))
+    ∧ parse [.op .Subtract, .id x, .op .Power, .id y] = some (.bin .Power (.neg (v x)) (v y))
+    ∧ parse [.op .Subtract, .num k, .op .Power, .id y]
+      = some (.bin .Power (.atom (.negNum k)) (v y)) := by
+  refine ⟨?_, ?_, ?_⟩
+  · simpa [tokens, render, lp, rp, OpTok.prec] using prec_roundtrip (.not (.bin .And (v x) (v y)))
+  · simpa [tokens, render, lp, rp, OpTok.prec] using prec_roundtrip (.bin .Power (.neg (v x)) (v y))
+  · simpa [tokens, render, lp, rp, OpTok.prec] using
+      prec_roundtrip (.bin .Power (.atom (.negNum k)) (v y))
+
+/-- non-vacuity: a tree that needs parentheses on both sides, and its rendering -/
+example : Prec.text (tokens (.bin .Multiply (.bin .Add (v 0) (v 1)) (.bin .Subtract (v 2) (.neg (.atom (.num 3))))))
+    = "(a + b) * (c - -(3))" := by decide
+
 /-! ## number tower -/
 
 /-- integer `+ - *` and negation are the `Int64` operations, i.e. arithmetic modulo 2⁶⁴ -/
@@ -25,13 +124,8 @@ theorem int_arith_mod (x y : Int) :
     ∧ Int64.ofInt x * Int64.ofInt y = Int64.ofInt (x * y) :=
   ⟨(Int64.ofInt_add x y).symm, (Int64.ofInt_mul x y).symm⟩
 
-example : Num.add ValueIO_free (.i (Int64.ofInt 9223372036854775807)) (.i 1)
+example : Num.add stubFloatOps (.i (Int64.ofInt 9223372036854775807)) (.i 1)
     = .i (Int64.ofInt (-9223372036854775808)) := by decide
-where ValueIO_free : FloatOps :=
-  { add := fun a _ => a, sub := fun a _ => a, mul := fun a _ => a, div := fun a _ => a,
-    rem := fun a _ => a, pow := fun a _ => a, neg := id, lt := fun _ _ => false,
-    le := fun _ _ => false, eq := fun _ _ => false, ofInt := fun n => n.toUInt64,
-    toInt := fun b => b.toInt64, isNaN := fun _ => false }
 
 /-- `/` always yields a float -/
 theorem div_is_float (F : FloatOps) (a b : Num) : (Num.div F a b).isFloat = true := rfl
@@ -52,5 +146,175 @@ theorem falsy_iff (v : Val) : v.truthy = false ↔ v = .null ∨ v = .bool false
 
 example : (Val.int 0).truthy = true ∧ (Val.str []).truthy = true ∧ (Val.list []).truthy = true :=
   ⟨rfl, rfl, rfl⟩
+
+/-! ## reference semantics (layer 3)
+
+All statements are for every fuel `n`, every state `s`, every float implementation `F`.
+`(eval F n e s).2.out` is the output trace after evaluating `e` (the trace is part of the state and
+only ever appended to). -/
+
+/-- the semantics is a function: one program, one state, one outcome -/
+theorem eval_deterministic (F : FloatOps) (n : Nat) (e : Expr) (s : St) (r₁ r₂ : Res Val × St)
+    (h₁ : eval F n e s = r₁) (h₂ : eval F n e s = r₂) : r₁ = r₂ := h₁ ▸ h₂ ▸ rfl
+
+/-- `a and b`: `a` is evaluated; `b` is evaluated (in the state `a` left) exactly when `a`'s value is
+truthy, and then `b`'s outcome is the outcome; otherwise the value is `a`'s value and nothing else
+happens. In particular the output trace is `a`'s trace, extended by `b`'s trace iff `a` was truthy. -/
+theorem and_short (F : FloatOps) (n : Nat) (a b : Expr) (s : St) :
+    eval F (n + 1) (.and a b) s =
+      match eval F n a s with
+      | (.ok va, s₁) => if va.truthy then eval F n b s₁ else (.ok va, s₁)
+      | (.err e, s₁) => (.err e, s₁)
+      | (.brk v, s₁) => (.brk v, s₁)
+      | (.cont, s₁) => (.cont, s₁)
+      | (.nofuel, s₁) => (.nofuel, s₁) := by
+  rw [eval_and]; rcases eval F n a s with ⟨r, s₁⟩; cases r <;> simp [seq]
+
+theorem or_short (F : FloatOps) (n : Nat) (a b : Expr) (s : St) :
+    eval F (n + 1) (.or a b) s =
+      match eval F n a s with
+      | (.ok va, s₁) => if va.truthy then (.ok va, s₁) else eval F n b s₁
+      | (.err e, s₁) => (.err e, s₁)
+      | (.brk v, s₁) => (.brk v, s₁)
+      | (.cont, s₁) => (.cont, s₁)
+      | (.nofuel, s₁) => (.nofuel, s₁) := by
+  rw [eval_or]; rcases eval F n a s with ⟨r, s₁⟩; cases r <;> simp [seq]
+
+/-- trace form: a falsy left operand of `and` means the right operand contributes no output -/
+theorem and_short_trace (F : FloatOps) (n : Nat) (a b : Expr) (s s₁ : St) (va : Val)
+    (ha : eval F n a s = (.ok va, s₁)) :
+    (eval F (n + 1) (.and a b) s).2.out
+      = if va.truthy then (eval F n b s₁).2.out else s₁.out := by
+  rw [eval_and, ha]; simp only [seq]; split <;> simp_all
+
+theorem or_short_trace (F : FloatOps) (n : Nat) (a b : Expr) (s s₁ : St) (va : Val)
+    (ha : eval F n a s = (.ok va, s₁)) :
+    (eval F (n + 1) (.or a b) s).2.out
+      = if va.truthy then s₁.out else (eval F n b s₁).2.out := by
+  rw [eval_or, ha]; simp only [seq]; split <;> simp_all
+
+/-- value semantics of the guide: `null or 42` is `42`, `0 and 5` is `5`, `'' or 7` is `''` -/
+example :
+    (eval stubFloatOps 3 (.or (.lit .null) (.lit (Val.int 42))) {}).1 matches .ok (.num (.i 42))
+    ∧ (eval stubFloatOps 3 (.and (.lit (Val.int 0)) (.lit (Val.int 5))) {}).1 matches .ok (.num (.i 5))
+    ∧ (eval stubFloatOps 3 (.or (.lit (.str [])) (.lit (Val.int 7))) {}).1 matches .ok (.str []) := by
+  decide
+
+/-- comparison chain, one link: the operand `e` is evaluated exactly once (the single `eval` below);
+its value `v` is the right operand of this comparison *and* the left operand of the next one; when
+the comparison is false the chain ends there with `false`, in the state `e` left — no operand to the
+right of it is evaluated. -/
+theorem chain_once (F : FloatOps) (n : Nat) (prev : Val) (op : CmpOp) (e : Expr) (rest : Chain) (s : St) :
+    evalChain F (n + 1) prev (.cons op e rest) s =
+      match eval F n e s with
+      | (.ok v, s₁) =>
+        match cmpV F op prev v with
+        | .error err => (.err err, s₁)
+        | .ok false => (.ok (.bool false), s₁)
+        | .ok true =>
+          match rest with
+          | .nil => (.ok (.bool true), s₁)
+          | .cons _ _ _ => evalChain F n v rest s₁
+      | (.err e, s₁) => (.err e, s₁)
+      | (.brk v, s₁) => (.brk v, s₁)
+      | (.cont, s₁) => (.cont, s₁)
+      | (.nofuel, s₁) => (.nofuel, s₁) := by
+  rw [evalChain]; rcases eval F n e s with ⟨r, s₁⟩; cases r <;> rfl
+
+/-- … so in `a op₁ b op₂ c`, when `a op₁ b` is false, `c` leaves no trace: the output is the output
+after `b` -/
+theorem chain_short_trace (F : FloatOps) (n : Nat) (va vb : Val) (op₁ : CmpOp) (b : Expr) (rest : Chain)
+    (s s₁ : St) (hb : eval F n b s = (.ok vb, s₁)) (hfalse : cmpV F op₁ va vb = .ok false) :
+    evalChain F (n + 1) va (.cons op₁ b rest) s = (.ok (.bool false), s₁) := by
+  rw [chain_once, hb]; simp [hfalse]
+
+/-- `1 < 3 < 2 < 'a'`: every operand up to the first false comparison is emitted once, in order,
+the operand after it (which would be a type error) is never evaluated -/
+example :
+    let e := Expr.cmp (.emit (.lit (Val.int 1)))
+      (.cons .lt (.emit (.lit (Val.int 3))) (.cons .lt (.emit (.lit (Val.int 2)))
+        (.cons .lt (.emit (.lit (.str [97]))) .nil)))
+    let r := eval stubFloatOps 10 e {}
+    (r.1 matches .ok (.bool false)) ∧ r.2.out.length = 3 := by
+  decide
+
+/-- `if` without `else` whose condition is falsy is `null` (and nothing but the condition ran) -/
+theorem if_no_else_null (F : FloatOps) (n : Nat) (c t : Expr) (s s₁ : St) (vc : Val)
+    (hc : eval F n c s = (.ok vc, s₁)) (hf : vc.truthy = false) :
+    eval F (n + 1) (.ifThen c t) s = (.ok .null, s₁) := by
+  rw [eval_ifThen, hc]; simp [seq, hf]
+
+/-- `switch` whose arms all fail is `null` (one arm shown; `evalArms … .nil` is `null`) -/
+theorem switch_no_arm_null (F : FloatOps) (n : Nat) (c e : Expr) (s s₁ : St) (vc : Val)
+    (hc : eval F (n + 1) c s = (.ok vc, s₁)) (hf : vc.truthy = false) :
+    eval F (n + 3) (.switch (.cons c e .nil)) s = (.ok .null, s₁) := by
+  rw [eval_switch, evalArms_cons, hc]; simp only [seq, hf]; rw [evalArms_nil]; rfl
+
+/-- a `while` loop whose condition is falsy at the first test never runs and is `null`
+(`until`: truthy) -/
+theorem loop_never_runs_null (F : FloatOps) (n : Nat) (c b : Expr) (s s₁ : St) (vc : Val)
+    (hc : eval F n c s = (.ok vc, s₁)) :
+    (vc.truthy = false → eval F (n + 2) (.while c b) s = (.ok .null, s₁))
+    ∧ (vc.truthy = true → eval F (n + 2) (.until c b) s = (.ok .null, s₁)) := by
+  constructor <;> intro hf
+  · rw [eval_while, evalLoop_cond, hc]; simp [seq, hf]
+  · rw [eval_until, evalLoop_cond, hc]; simp [seq, hf]
+
+/-- a `for` loop over an empty list is `null` -/
+theorem for_empty_null (F : FloatOps) (n x : Nat) (it b : Expr) (s s₁ : St)
+    (hi : eval F n it s = (.ok (.list []), s₁)) :
+    eval F (n + 1) (.for x it b) s = (.ok .null, s₁) := by
+  obtain ⟨k, rfl⟩ := eval_pos hi
+  rw [eval_for F (k + 1) x it b s s₁ _ [] hi rfl, evalFor_nil]
+
+/-- `break v` in the body ends the loop with value `v` (whatever earlier iterations produced);
+`break` without value gives `null` -/
+theorem break_value (F : FloatOps) (n : Nat) (b : Expr) (acc v : Val) (s s₁ : St)
+    (hb : eval F n b s = (.brk v, s₁)) :
+    evalLoop F (n + 1) none b acc s = (.ok v, s₁)
+    ∧ eval F (n + 2) (.loop b) s = (.ok v, s₁) := by
+  constructor
+  · rw [evalLoop_none, hb]; rfl
+  · rw [eval_loop, evalLoop_none, hb]; rfl
+
+theorem break_without_value_null (F : FloatOps) (n : Nat) (s : St) :
+    eval F (n + 1) .brk s = (.brk .null, s) := by simp [eval]
+
+/-- `continue` makes the iteration's value `null` and goes on with the next round -/
+theorem continue_value (F : FloatOps) (n : Nat) (b : Expr) (acc : Val) (s s₁ : St)
+    (hb : eval F n b s = (.cont, s₁)) :
+    evalLoop F (n + 1) none b acc s = evalLoop F n none b .null s₁ := by
+  rw [evalLoop_none, hb]; rfl
+
+/-- the value of an assignment is the assigned value, and the variable holds it afterwards -/
+theorem assign_value (F : FloatOps) (n x : Nat) (e : Expr) (s s₁ : St) (v : Val)
+    (he : eval F n e s = (.ok v, s₁)) :
+    eval F (n + 1) (.assign x e) s = (.ok v, s₁.set x v) ∧ lookup x (s₁.set x v).env = some v := by
+  constructor
+  · rw [eval_assign, he]; rfl
+  · simp only [St.set]
+    generalize s₁.env = env
+    induction env with
+    | nil => simp [update, lookup]
+    | cons p rest ih =>
+      obtain ⟨y, w⟩ := p
+      by_cases h : x = y <;> simp [update, lookup, h, ih]
+
+/-- `x op= e` is `x = x op e` with `x` read first: its outcome only depends on the value `x` had
+before `e` ran -/
+theorem op_assign_reads_first (F : FloatOps) (n x : Nat) (op : ArithOp) (e : Expr) (s s₁ : St) (v₀ v₁ r : Val)
+    (hx : lookup x s.env = some v₀) (he : eval F n e s = (.ok v₁, s₁))
+    (hr : opAssignV F op v₀ v₁ = .ok r) :
+    eval F (n + 1) (.opAssign op x e) s = (.ok r, s₁.set x r) := by
+  rw [eval_opAssign F n x op e s s₁ v₀ v₁ hx he, hr]
+
+/-- non-vacuity: a loop that runs twice, `continue`s once and ends with `break 7` -/
+example :
+    (eval stubFloatOps 40
+      (.block (.cons (.assign 0 (.lit (Val.int 0)))
+        (.cons (.loop (.block (.cons (.opAssign .add 0 (.lit (Val.int 1)))
+          (.cons (.ifThen (.cmp (.var 0) (.cons .lt (.lit (Val.int 2)) .nil)) .cont)
+          (.cons (.brkVal (.lit (Val.int 7))) .nil))))) .nil))) {}).1 matches .ok (.num (.i 7)) := by
+  decide
 
 end KotoVerif.C01
